@@ -379,6 +379,12 @@ def run_history(hist, cap, ttl, kind, shared_strict, resolver_second: bool = Fal
         rcache.time = saved
 
 
+def _stable_hash(*xs) -> int:
+    """deterministic across processes (the builtin hash of strings is salted per process)"""
+    import zlib
+    return zlib.crc32(repr(xs).encode())
+
+
 def run_cases(run: lib.Run, scale: int = 1):
     quick = run.tier == "quick"
     configs = [(cap, ttl, "lru") for cap in (0, 1, 2, 2048) for ttl in (None, 0, 5)] + [(0, 5, "dict"), (0, None, "copy")]
@@ -389,7 +395,9 @@ def run_cases(run: lib.Run, scale: int = 1):
             if not any(o[0] == "eval" for o in hist):
                 continue
             for ci, (cap, ttl, kind) in enumerate(configs):
-                if quick and L == 3 and (hash((hist, ci)) % 7):
+                if quick and L == 3 and (_stable_hash(hist, ci, run.seed) % 7):
+                    continue
+                if not quick and L == 4 and (_stable_hash(hist, ci, run.seed) % 3):
                     continue
                 count += 1
                 bad = run_history(hist, cap, ttl, kind, shared_strict=bool((ci + L) % 2))
